@@ -229,7 +229,12 @@ def model (line : String) : String :=
     match ints rest with
     | some [a1, b1, c1, d1, e1, f1, a2, b2, c2, d2, e2, f2] =>
       let a : M32 Int := ⟨a1, b1, c1, d1, e1, f1⟩; let b : M32 Int := ⟨a2, b2, c2, d2, e2, f2⟩
-      let r := if k == "m" then M32.mul a b else if k == "e" then M32.mulAssign a b else M32.mulAssign a a
+      if k == "p" then let q := a.apply (b.a, b.b); showInts [q.1, q.2] else
+      -- inverse<long>: `/` truncates
+      let det := a.a * a.d - a.b * a.c
+      let inv : M32 Int := ⟨Int.tdiv a.d det, Int.tdiv (-a.b) det, Int.tdiv (-a.c) det, Int.tdiv a.a det,
+                            Int.tdiv (a.c * a.f - a.d * a.e) det, Int.tdiv (a.b * a.e - a.a * a.f) det⟩
+      let r := if k == "m" then M32.mul a b else if k == "e" then M32.mulAssign a b else if k == "i" then inv else M32.mulAssign a a
       showInts [r.a, r.b, r.c, r.d, r.e, r.f]
     | _ => "bad-op"
   | [k, vt, _, w, h, D, ny, nx0, n, step] =>
@@ -574,7 +579,9 @@ def judge (op obs : String) : String :=
     match ints rest, ints (words obs) with
     | some [a1, b1, c1, d1, e1, f1, a2, b2, c2, d2, e2, f2], some o =>
       let a := [a1, b1, c1, d1, e1, f1]; let b := if k == "s" then a else [a2, b2, c2, d2, e2, f2]
-      if o = mulI6 a b then "ok" else fail (if k == "m" then "product" else "compound-product")
+      if k == "i" then (if mulI6 o a = [1, 0, 0, 1, 0, 0] ∧ mulI6 a o = [1, 0, 0, 1, 0, 0] then "ok" else fail "inverse")
+      else if k == "p" then (if o = [a1 * a2 + c1 * b2 + e1, b1 * a2 + d1 * b2 + f1] then "ok" else fail "transform")
+      else if o = mulI6 a b then "ok" else fail (if k == "m" then "product" else "compound-product")
     | _, _ => fail "not-a-value"
   | ["mcr", _, _, _] =>
     -- center_rotate is not part of the property's statement: only the correspondence with the model is checked
